@@ -322,6 +322,8 @@ void TasmanianSparseGrid::updateGrid(int depth, TypeDepth type, std::vector<int>
     size_t expected_aw_size = (OneDimensionalMeta::isTypeCurved(type)) ? 2*dims : dims;
     if (not anisotropic_weights.empty() and anisotropic_weights.size() != expected_aw_size) throw std::invalid_argument("ERROR: in updateGrid() anisotropic_weights must be either empty or has size equal to dimenions or twice dimenions based on the type of the update.");
     if (not level_limits.empty() and level_limits.size() != (size_t) dims) throw std::invalid_argument("ERROR: in updateGrid() level_limits must be either empty or must have size equal to the number of dimensions");
+    if (not (isGlobal() or isSequence() or isFourier())) // check the grid type before the level limits are stored, a rejected call must not modify the grid
+        throw std::runtime_error("ERROR: an update operation can be performed only on Global, Sequence and Fourier grids.");
     if (not level_limits.empty()) llimits = level_limits; // if level_limits is empty, use the existing llimits (if any)
     if (isGlobal()){
         get<GridGlobal>()->updateGrid(depth, type, anisotropic_weights, llimits);
